@@ -493,7 +493,7 @@ func (e *env) latticeCase(tier, engine string, limit uint32, p *program, only in
 
 // ---------------------------------------------------------------- orders of first touch
 
-var letters = []string{"D", "T", "L", "N", "M", "F"}
+var letters = []string{"D", "T", "L", "N", "M", "F", "C", "A"}
 
 func letterSettings(engine string, l string) settings {
 	s := settings{Engine: engine, Limit: smallLimit}
@@ -508,6 +508,10 @@ func letterSettings(engine string, l string) settings {
 		s.Limit = 2
 	case "F":
 		s.V1 = true
+	case "C":
+		s.CapMax = true
+	case "A":
+		s.Alloc = true
 	}
 	return s
 }
@@ -547,8 +551,12 @@ func tuples() [][]string {
 	return out
 }
 
-// scenario levels: 0 quick; 1 thorough; 2 thorough, plus for triples every order of compilation that differs
-// from the order of creation (programs flagged Order).
+// scenario levels: 0 quick; 1 thorough; 2 thorough for the programs flagged Order.
+//
+//	singles: sequential, every life cycle (all levels)
+//	pairs:   {seq, inter, inter-rev} x every life cycle (all levels)
+//	triples: 0: inter x keep;  1: {seq, inter, inter-rev} x keep;
+//	         2: {seq, inter, inter-rev} x every life cycle, plus the four remaining orders of compilation x keep
 func scenLevel(p *program, thorough bool) int {
 	switch {
 	case !thorough:
@@ -562,19 +570,32 @@ func scenLevel(p *program, thorough bool) int {
 var allModes = []string{"seq", "inter", "inter-rev", "inter-021", "inter-102", "inter-120", "inter-201"}
 
 func enumScenarios(cache string, level int) []scenario {
-	thorough := level > 0
 	var out []scenario
 	for _, life := range lives {
 		for _, t := range tuples() {
 			modes := allModes[:3]
-			if len(t) == 1 {
+			switch {
+			case len(t) == 1:
 				modes = allModes[:1]
-			} else if len(t) == 3 && level == 2 {
+			case len(t) == 3 && level == 2:
 				modes = allModes
 			}
-			for _, m := range modes {
-				if !thorough && len(t) == 3 && (life != "keep" || m == "inter-rev") {
-					continue // quick: triples only with every runtime kept open, sequential and interleaved
+			for mi, m := range modes {
+				if len(t) == 3 {
+					switch level {
+					case 0:
+						if life != "keep" || m != "inter" {
+							continue
+						}
+					case 1:
+						if life != "keep" {
+							continue
+						}
+					case 2:
+						if mi >= 3 && life != "keep" {
+							continue
+						}
+					}
 				}
 				out = append(out, scenario{cache, life, m, t})
 			}
@@ -665,6 +686,16 @@ func (e *env) runScenario(p *program, engine string, sc scenario) []*rtRun {
 		r.dispose()
 	}
 	return runs
+}
+
+type batchReplay struct {
+	Kind     string `json:"kind"`
+	Tier     string `json:"tier"`
+	Engine   string `json:"engine"`
+	CaseKind string `json:"case_kind"`
+	Limit    uint32 `json:"limit"`
+	Program  string `json:"program"`
+	Cache    string `json:"cache"`
 }
 
 type orderReplay struct {
@@ -990,6 +1021,13 @@ func main() {
 				return string(b)
 			})
 		}
+		if strings.HasPrefix(mode, "rebatch:") { // one whole case again, in a fresh child
+			ci, _ := strconv.Atoi(strings.TrimPrefix(mode, "rebatch:"))
+			fw.ChildLoop(func(int) string {
+				b, _ := json.Marshal(e.runCase(run.Tier, corpus, cases[ci], -1))
+				return string(b)
+			})
+		}
 		fw.ChildLoop(func(i int) string {
 			b, _ := json.Marshal(e.runCase(run.Tier, corpus, cases[i], -1))
 			return string(b)
@@ -1020,6 +1058,7 @@ func main() {
 	groups := map[string]*group{}
 	var lviols []viol
 	var crashed []int
+	batchCrash := map[int]*fw.Crash{}
 	perKind := map[string]int64{}
 	workers := runtime.NumCPU()
 	childEnv := []string{"C12_TMP=" + tmp, "GOMAXPROCS=2"}
@@ -1070,6 +1109,7 @@ func main() {
 			c := cases[i]
 			if crash != nil {
 				crashed = append(crashed, i)
+				batchCrash[i] = crash
 				return
 			}
 			perKind[c.Kind]++
@@ -1088,8 +1128,7 @@ func main() {
 		fw.Supervise(fw.SupOpts{N: n, Workers: workers, CaseTimeout: 10 * time.Minute, Mode: fmt.Sprintf("single:%d", ci), Env: childEnv},
 			func(j int, res string, crash *fw.Crash) {
 				if crash == nil {
-					handle(ci, res)
-					return
+					return // results of one-scenario runs are not merged (minimisation needs the whole case)
 				}
 				found++
 				var what string
@@ -1111,9 +1150,38 @@ func main() {
 				run.Violation(fmt.Sprintf("%s:%s:%s:%s", crash.Kind, c.Engine, cls, corpus[c.Prog].tag()),
 					fmt.Sprintf("the process %s in %s: %s", map[string]string{"crash": "died", "timeout": "hung"}[crash.Kind], what, fw.FirstLines(crash.Stderr, 4)), rp)
 			})
-		if found == 0 {
-			finish()
-			fw.Fatalf("case %d (%+v) crashed as a batch but no single scenario of it crashes: not reproducible", ci, c)
+		if found > 0 {
+			continue
+		}
+		// No single scenario crashes alone (e.g. heap corruption that needs the accumulated state of the
+		// batch): run the whole case twice more in fresh children. Crashing in 2 of the 3 runs is a verdict;
+		// a crash that never recurs is a note in the evidence, never a harness error.
+		crashes, merged := 1, false
+		first := batchCrash[ci]
+		for attempt := 0; attempt < 2; attempt++ {
+			fw.Supervise(fw.SupOpts{N: 1, Workers: 1, CaseTimeout: 25 * time.Minute, Mode: fmt.Sprintf("rebatch:%d", ci), Env: childEnv},
+				func(_ int, res string, crash *fw.Crash) {
+					if crash != nil {
+						crashes++
+						return
+					}
+					if !merged {
+						merged = true
+						perKind[c.Kind]++
+						caseDone[ci] = true
+						handle(ci, res)
+					}
+				})
+		}
+		if crashes >= 2 {
+			outcomes.Inc("process-" + first.Kind + "-batch")
+			run.Violation(fmt.Sprintf("process-crash:batch:%s:%s", c.Engine, c.Kind),
+				fmt.Sprintf("the child process %s in %d of 3 runs of the whole case %s (%s, limit %d, program %s, cache %q) although no single scenario of it crashes alone: %s",
+					map[string]string{"crash": "died", "timeout": "hung"}[first.Kind], crashes, c.Kind, c.Engine, c.Limit, corpus[c.Prog].Name, c.Cache, fw.FirstLines(first.Stderr, 4)),
+				batchReplay{"batch", run.Tier, c.Engine, c.Kind, c.Limit, corpus[c.Prog].Name, c.Cache})
+		} else {
+			run.Note("case %d (%s %s limit %d program %s cache %q): the child %s once, no single scenario and neither of two further whole-case runs reproduced it: %s",
+				ci, c.Kind, c.Engine, c.Limit, corpus[c.Prog].Name, c.Cache, first.Kind, fw.FirstLines(first.Stderr, 2))
 		}
 	}
 	for i, c := range cases { // samples in case order (the callback order is not deterministic)
@@ -1209,7 +1277,7 @@ func main() {
 			"programs": len(corpus), "programs_per_family": families, "programs_in_order_scenarios": nOrder,
 			"lattice_points": len(allPoints()), "cache_modes": cacheModes, "toggles": []string{"capmax", "alloc", "nodebug", "custom", "listener", "cod"},
 			"semantic_bases":      []string{fmt.Sprintf("WithMemoryLimitPages(%d): all programs", smallLimit), "default limit (65536): programs with a memory"},
-			"order_settings":      map[string]string{"D": "default", "T": "WithCloseOnContextDone(true)", "L": "function listener", "N": "WithDebugInfoEnabled(false)", "M": "WithMemoryLimitPages(2)", "F": "WithCoreFeatures(V1)"},
+			"order_settings":      map[string]string{"D": "default", "T": "WithCloseOnContextDone(true)", "L": "function listener", "N": "WithDebugInfoEnabled(false)", "M": "WithMemoryLimitPages(2)", "F": "WithCoreFeatures(V1)", "C": "WithMemoryCapacityFromMax(true)", "A": "custom MemoryAllocator"},
 			"order_tuples":        len(tuples()),
 			"order_scenarios_per_case": map[string]int{"quick": len(enumScenarios("mem", 0)), "thorough": len(enumScenarios("mem", 1)), "thorough_order_flagged_programs": len(enumScenarios("mem", 2))},
 			"engines":             []string{"compiler", "interpreter"},
@@ -1332,6 +1400,24 @@ func replay(file string) {
 			} else {
 				fmt.Printf("runtime %s equal to itself alone\n", l)
 			}
+		}
+	case "batch":
+		var r batchReplay
+		json.Unmarshal(doc.Replay, &r)
+		pi := -1
+		for i, q := range corpus {
+			if q == p {
+				pi = i
+			}
+		}
+		fmt.Printf("running the whole %s case in this process (a crash of this process reproduces the finding)\n", r.CaseKind)
+		res := e.runCase(r.Tier, corpus, caseDesc{r.CaseKind, r.Engine, r.Limit, pi, r.Cache}, -1)
+		fmt.Printf("completed without crashing: %d scenarios, %d comparisons, %d lattice differences, %d order difference classes\n", res.Scen, res.Evals, len(res.Viols), len(res.Groups))
+		for _, v := range res.Viols {
+			fmt.Println("  ", v.Sig)
+		}
+		for _, g := range res.Groups {
+			fmt.Printf("   order:%s:%s victim=%s with=%s (%d)\n", g.Engine, g.Key, g.Victim, g.With, g.N)
 		}
 	default:
 		fw.Fatalf("replay: unknown kind %q", kind.Kind)
